@@ -184,45 +184,27 @@ theorem run_result :
 theorem run_buckets :
     (irun 1 ctx "W2" ["A2"] x0 evs).map (fun x => (x.s.credits.map (·.1.tx),
        x.s.debits.map (fun e => (e.1.tx, e.1.blk.hash, e.1.idx)), x.s.txrecs.map (·.1.1))) =
-    some ([], [("X3", "B2", 0)], []) := by decide
+    some ([], [], []) := by decide
+
+theorem run_pending :
+    (irun 1 ctx "W2" ["A2"] x0 evs).map (fun x => (x.s.pending.map (·.1), x.s.pendCred.map (·.1), x.s.blocks.map (·.1))) =
+    some ([], [], []) := by decide
+
+/-- after the first step (step size 1) X3's tx record and B2's block record are STILL there (D45 repair: the debit
+    (X3, B2, 0) is left), so the reorganisation rolls X3 back like any other keystore's transaction -/
+theorem first_step_keeps_record :
+    (irun 1 ctx "W2" ["A2"] x0 [.rem]).map (fun x => (x.fin, x.s.credits.map (fun e => (e.1.tx, e.1.idx)))) =
+      some (false, [("C1", 0), ("C1", 2)]) ∧
+    (irun 1 ctx "W2" ["A2"] x0 [.rem]).map (fun x => x.s.debits.map (fun e => (e.1.tx, e.1.blk.hash, e.1.idx))) =
+      some [("X3", "B2", 0)] ∧
+    (irun 1 ctx "W2" ["A2"] x0 [.rem]).map (fun x => (x.s.txrecs.map (·.1.1), x.s.blocks.map (·.1))) =
+      some (["X3", "C1"], [2, 1]) := ⟨by decide, by decide, by decide⟩
 
 /-- the books of chain B for W1's keystore have no debit at all under that key -/
 theorem books_no_debit : (bookOf ctx.p own' chainB).debits ⟨"X3", ⟨2, "B2"⟩, 0⟩ = none := by decide
 
-/-- **the interleaved removal does NOT end in C01's invariant for the table without the wallet** -/
-theorem interleaved_not_inv (x : ISt) (h : irun 1 ctx "W2" ["A2"] x0 evs = some x) :
-    x.fin = true ∧ x.node = nodeB ∧ ¬ Inv { ctx with own := own', wallets := ["W1"], node := x.node } x.s x.node.chain := by
-  have hr := run_result
-  rw [h] at hr
-  simp only [Option.map_some, Option.some.injEq, Prod.mk.injEq] at hr
-  have hnode : x.node = nodeB := irun_node evs x0 x h
-  refine ⟨hr.1, hnode, ?_⟩
-  intro hI
-  have hd := hI.agree.debits ⟨"X3", ⟨2, "B2"⟩, 0⟩
-  rw [hnode] at hd
-  change AMap.get x.s.debits ⟨"X3", ⟨2, "B2"⟩, 0⟩ = (bookOf ctx.p own' chainB).debits ⟨"X3", ⟨2, "B2"⟩, 0⟩ at hd
-  rw [books_no_debit] at hd
-  have : (AMap.get x.s.debits ⟨"X3", ⟨2, "B2"⟩, 0⟩).isSome = true := by
-    have : (irun 1 ctx "W2" ["A2"] x0 evs).map (fun x => (AMap.get x.s.debits ⟨"X3", ⟨2, "B2"⟩, 0⟩).isSome) = some true := by
-      decide
-    rw [h] at this
-    simpa using this
-  rw [hd] at this
-  cases this
-
 theorem run_some : (irun 1 ctx "W2" ["A2"] x0 evs).isSome = true := by decide
 
 theorem own_nodup : KeysNodup own := by unfold KeysNodup; decide
-
-/-- the full interleaving statement is FALSE of the model: this history meets every hypothesis -/
-theorem not_interleavedProjects : ¬ InterleavedProjects := by
-  intro h
-  cases hr : irun 1 ctx "W2" ["A2"] x0 evs with
-  | none => have := run_some; rw [hr] at this; cases this
-  | some x =>
-    obtain ⟨hfin, _, hnot⟩ := interleaved_not_inv x hr
-    exact hnot (h 1 ctx "W2" ["A2"] own' g x0 x evs ["W1"] (by decide) own_nodup remHyp goodA rfl rfl rfl rfl
-      inv_stF stF_nodup stF_unspent_nodup stF_pend stF_flagged others_ready evs_ok
-      (by intro y hy; simp at hy; subst hy; decide) hr hfin)
 
 end MW.Lemmas.RemoveMidCex
